@@ -233,6 +233,11 @@ _UNOPS = {"Not", "Neg", "PtrMetadata"}
 
 def parse_rvalue(s):
     s = s.strip()
+    for pre in ("no_retag ", "deref_copy "):
+        if s.startswith(pre):
+            s = s[len(pre):]
+            if not s.startswith(("copy ", "move ")):
+                s = "copy " + s
     if s.startswith("&"):
         t = s[1:]
         mut = False
